@@ -216,7 +216,8 @@ def main(argv=None):
                   **{k: v for k, v in ctx.notes.items() if k != 'exhaustive'}),
               assumptions=list(getattr(mod, 'ASSUMPTIONS', [])),
               wall_s=round(time.time() - t0, 2), violations=len(violations))
-    write_json(os.path.join(VERIF, 'evidence', prop + '.json'), ev)
+    # a --no-lean debug run never (over)writes the evidence file: it did not check the proofs
+    write_json(os.path.join('/tmp', 'nolean-evidence-%s.json' % prop) if a.no_lean else os.path.join(VERIF, 'evidence', prop + '.json'), ev)
     print('%s %s seed=%d: theorems %d/%d, cases %d (distinct non-trivial %d), corr-breaks %d, judged failures %d, %.1fs' % (
         prop, a.tier, seed, lb['discharged'], lb['obligations'], n_eval, len(sigs), len(corr_bad), len(judged_bad), time.time() - t0))
     return 1 if violations else 0
